@@ -653,6 +653,7 @@ class Ctx:
         self.var_names = []
         self.z3vars = []
         self.input_vars = {}      # name -> Sym (harness inputs, for models / replay)
+        self.int_inputs = set()
         self.purify = {}
         self.known = {}
         self.pc = []              # list of (SymBool, tag)
@@ -683,6 +684,19 @@ class Ctx:
 
     def reals(self, prefix, n):
         return [self.real("%s%d" % (prefix, i)) for i in range(n)]
+
+    def int(self, name, lo, hi):
+        """integer-valued input in [lo, hi] (z3 Int cast to Real, so it mixes with the real terms)"""
+        if name in self.input_vars:
+            raise HarnessError("duplicate input %s" % name)
+        idx = len(self.var_names)
+        self.var_names.append(name)
+        self.z3vars.append(z3.ToReal(z3.Int(name)))
+        v = Sym({(idx,): Fraction(1)})
+        self.input_vars[name] = v
+        self.int_inputs.add(name)
+        self._push(And(v >= lo, v <= hi), "assume")
+        return v
 
     def fresh(self, prefix):
         return self._newvar("%s!%d" % (prefix, next(self.fresh_n)))
@@ -867,6 +881,8 @@ class Ctx:
             if extra is not None:
                 s.add(extra.z3() if isinstance(extra, SymBool) else extra)
             for name, v in self.input_vars.items():
+                if name in self.int_inputs:
+                    continue
                 (idx,), = v.p.keys()
                 zv = self.z3vars[idx]
                 s.add(zv >= -64, zv <= 64)
@@ -992,6 +1008,12 @@ class ConcreteCtx:
 
     def const(self, v):
         return float(v)
+
+    def int(self, name, lo, hi):
+        if name not in self.model:
+            self.missing.append(name)
+            return lo
+        return int(round(float(self.model[name])))
 
     def assume(self, cond):
         if not cond:
